@@ -147,3 +147,51 @@ def exc_site(e: BaseException) -> str:
             site = os.path.basename(fn) + ":" + tb.tb_frame.f_code.co_name
         tb = tb.tb_next
     return site
+
+
+def build_step(c: Ctx, d: dict) -> Step:
+    """Build a step through the public constructors from a plain description
+    (same keys as the library's JSON; `slice` always explicit)."""
+    k = d["stepType"]
+    if k == "replace":
+        return ReplaceStep(d["from"], d["to"], c.slice(d.get("slice")), d.get("structure", False))
+    if k == "replaceAround":
+        return ReplaceAroundStep(d["from"], d["to"], d["gapFrom"], d["gapTo"], c.slice(d.get("slice")), d["insert"],
+                                 d.get("structure", False))
+    if k == "addMark":
+        return AddMarkStep(d["from"], d["to"], c.mark(d["mark"]))
+    if k == "removeMark":
+        return RemoveMarkStep(d["from"], d["to"], c.mark(d["mark"]))
+    if k == "addNodeMark":
+        return AddNodeMarkStep(d["pos"], c.mark(d["mark"]))
+    if k == "removeNodeMark":
+        return RemoveNodeMarkStep(d["pos"], c.mark(d["mark"]))
+    if k == "attr":
+        return AttrStep(d["pos"], d["attr"], d["value"])
+    if k == "docAttr":
+        return DocAttrStep(d["attr"], d["value"])
+    raise KeyError(k)
+
+
+def step_desc(step: Step) -> dict:
+    """Plain description of a live step (inverse of build_step)."""
+    if isinstance(step, ReplaceStep):
+        return {"stepType": "replace", "from": step.from_, "to": step.to, "slice": slice_json(step.slice),
+                "structure": step.structure}
+    if isinstance(step, ReplaceAroundStep):
+        return {"stepType": "replaceAround", "from": step.from_, "to": step.to, "gapFrom": step.gap_from,
+                "gapTo": step.gap_to, "slice": slice_json(step.slice), "insert": step.insert,
+                "structure": step.structure}
+    if isinstance(step, AddMarkStep):
+        return {"stepType": "addMark", "from": step.from_, "to": step.to, "mark": step.mark.to_json()}
+    if isinstance(step, RemoveMarkStep):
+        return {"stepType": "removeMark", "from": step.from_, "to": step.to, "mark": step.mark.to_json()}
+    if isinstance(step, AddNodeMarkStep):
+        return {"stepType": "addNodeMark", "pos": step.pos, "mark": step.mark.to_json()}
+    if isinstance(step, RemoveNodeMarkStep):
+        return {"stepType": "removeNodeMark", "pos": step.pos, "mark": step.mark.to_json()}
+    if isinstance(step, AttrStep):
+        return {"stepType": "attr", "pos": step.pos, "attr": step.attr, "value": step.value}
+    if isinstance(step, DocAttrStep):
+        return {"stepType": "docAttr", "attr": step.attr, "value": step.value}
+    raise TypeError(type(step))
